@@ -80,6 +80,8 @@ def floors(tier):
     # (quick, thorough): roughly 40 % of what the unchanged tree gives on the
     # weakest of seeds 0-3; the forced feature cycle makes them seed-independent
     f = {
+        'prebuilt:needed-checked': (12, 60),
+        'prebuilt:installed-program-ran': (4, 15),
         'install:run': (24, 250),
         'install:run:ninja': (4, 100),
         'install:rerun-over-existing': (2, 25),
@@ -141,6 +143,7 @@ def _abs_conflicts(entries, cfg):
 
 
 def cases(tier, seed):
+    yield from prebuilt_cases(tier)
     n = 20 if tier == 'quick' else 240
     nf = len(G.FEATURES)
     import shutil
@@ -269,10 +272,155 @@ def run_case(case):
     res = CaseResult()
     R = core.mkscratch('c15')
     try:
-        _run(case, res, R)
+        if case.get('kind') == 'prebuilt':
+            _run_prebuilt(case, res, R)
+        else:
+            _run(case, res, R)
     finally:
         core.rmtree(R)
     return res
+
+
+# --------------------------------------------------------------------------
+# a shared library that is NOT built by the project: it lies, ready-made, in the source tree
+# (vendored), is linked by what the project builds, and is installed as a run-time dependency
+
+PREBUILT_SHAPES = {
+    'exe-uses-prebuilt': "pre = shared_library(%(pre)r)\n"
+                         "prog = executable('prog', files=['main.c'], libs=[pre])\n"
+                         "install(prog%(dir)s)\n",
+    'exe-uses-built-lib-uses-prebuilt':
+        "pre = shared_library(%(pre)r)\n"
+        "mid = shared_library('mid', files=['mid.c'], libs=[pre])\n"
+        "prog = executable('prog', files=['main2.c'], libs=[mid])\n"
+        "install(prog%(dir)s)\n",
+    'exe-uses-prebuilt-and-built': "pre = shared_library(%(pre)r)\n"
+                                   "own = shared_library('sub/own', files=['own.c'])\n"
+                                   "prog = executable('bin/prog', files=['main3.c'], "
+                                   "libs=[own, pre])\n"
+                                   "install(prog%(dir)s)\n",
+}
+
+
+def prebuilt_cases(tier):
+    i = 0
+    for shape in sorted(PREBUILT_SHAPES):
+        for pre in ('vendor/libpre.so', 'libpre.so', 'third party/x/libpre.so'):
+            for destdir in (None, '@R@/stage dir'):
+                for d in ('', ", directory='tools'"):
+                    i += 1
+                    if tier == 'quick' and i % 3 != 1:
+                        continue
+                    yield {'kind': 'prebuilt', 'id': 'prebuilt-%d' % i, 'shape': shape,
+                           'pre': pre, 'destdir': destdir, 'dir': d,
+                           'config': {}, 'configure_destdir': None, 'files': {'build.bfg': ''}}
+
+
+def _run_prebuilt(case, res, R):
+    src, bld = os.path.join(R, 'src'), os.path.join(R, 'bld')
+    prefix = os.path.join(R, 'root', 'pre fix')
+    pre = case['pre']
+    script = PREBUILT_SHAPES[case['shape']] % {'pre': pre, 'dir': case['dir']}
+    proj.write_tree(src, {
+        'build.bfg': "project('pb', version='1.0')\n" + script,
+        'pre.c': 'int f_pre(void) { return 5; }\n',
+        'mid.c': 'int f_pre(void);\nint f_mid(void) { return f_pre() + 20; }\n',
+        'own.c': 'int f_own(void) { return 300; }\n',
+        'main.c': 'int f_pre(void);\nint main(void) { return f_pre() == 5 ? 0 : 9; }\n',
+        'main2.c': 'int f_mid(void);\nint main(void) { return f_mid() == 25 ? 0 : 9; }\n',
+        'main3.c': 'int f_pre(void);\nint f_own(void);\n'
+                   'int main(void) { return f_pre() + f_own() == 305 ? 0 : 9; }\n',
+    })
+    env = core.base_env({'CC': 'gcc'})
+    os.makedirs(os.path.dirname(os.path.join(src, pre)), exist_ok=True)
+    rc, out = core.run(['gcc', '-shared', '-fPIC', '-Wl,-soname,libpre.so', 'pre.c', '-o', pre],
+                       cwd=src, env=env, timeout=120)
+    if rc != 0:
+        raise core.HarnessError('cannot build the vendored library: ' + out[-300:])
+    res.evaluations = 1
+    res.key(['prebuilt', case['shape'], pre, bool(case['destdir']), case['dir']], True)
+    w = {'shape': case['shape'], 'prebuilt_library': pre, 'build_bfg': script,
+         'destdir': case['destdir'], '__case__': case}
+    rc, out = proj.configure(src, bld, 'make', ['--prefix', prefix], env=env)
+    if rc != 0:
+        res.violate(('prebuilt', 'configure-failed'), dict(w, output=out[-800:]))
+        return
+    rc, out = proj.build(bld, 'make', ['all'], env=env)
+    if rc != 0:
+        res.violate(('prebuilt', 'build-failed'), dict(w, output=out[-800:]))
+        return
+    destdir = _sub(case['destdir'], R) if case['destdir'] else ''
+    rc, out = proj.build(bld, 'make', ['install'] + (['DESTDIR=' + destdir] if destdir else []),
+                         env=env)
+    if rc != 0:
+        res.violate(('prebuilt', 'install-failed'), dict(w, output=out[-800:]))
+        return
+    res.ev('prebuilt:installed')
+
+    def ondisk(p):
+        return os.path.normpath(destdir + p) if destdir else p
+    # (a file keeps its build-directory-relative name below the directory of its kind;
+    # directory= is appended to that directory, for the run-time dependencies as well)
+    libdir = prefix + '/lib' + ('/tools' if case['dir'] else '')
+    bindir = prefix + '/bin' + ('/tools' if case['dir'] else '')
+    exe = ondisk(bindir + ('/bin/prog' if "'bin/prog'" in script else '/prog'))
+    elfs = [exe, ondisk(libdir + '/libpre.so')]
+    if 'mid' in script:
+        elfs.append(ondisk(libdir + '/libmid.so'))
+    if 'own' in script:
+        elfs.append(ondisk(libdir + '/sub/libown.so'))
+    missing = [os.path.relpath(p, R) for p in elfs if not os.path.isfile(p)]
+    if missing:
+        res.violate(('prebuilt', 'not-installed', 'run-time-dependency'
+                     if any('lib' in os.path.basename(m) for m in missing) else 'program'),
+                    dict(w, missing=missing, install_output=out[-600:]))
+        return
+    # every project library an installed file needs is found through its run-time search
+    # path, at the place it was installed to - and nowhere in the source or build tree
+    for p in elfs:
+        dyn = readelf_dyn(p, env)
+        if dyn is None:
+            res.violate(('prebuilt', 'not-elf'), dict(w, path=os.path.relpath(p, R)))
+            continue
+        rp = dyn['runpath'] if dyn['runpath'] is not None else dyn['rpath']
+        rps = [posixpath.normpath(x) for x in (rp.split(':') if rp else []) if x]
+        for x in rps:
+            for name, f in (('srcdir', src), ('builddir', bld)) + \
+                    ((('destdir', destdir),) if destdir else ()):
+                if under(x, f):
+                    res.violate(('rpath', name, 'prebuilt'),
+                                dict(w, path=os.path.relpath(p, R), runpath=rp))
+        for n in dyn['needed']:
+            if SYSTEM_LIBS.match(n):
+                continue
+            res.ev('prebuilt:needed-checked')
+            if not any(os.path.exists(ondisk(x + '/' + n)) for x in rps if x.startswith('/')):
+                res.violate(('rpath', 'needed-not-found', 'prebuilt'),
+                            dict(w, path=os.path.relpath(p, R), needed=n, runpath=rp))
+    # ... and the installed program runs once the trees it was built from are gone
+    if not destdir:
+        os.rename(src, src + '.gone')
+        os.rename(bld, bld + '.gone')
+        try:
+            rc, out = core.run([exe], cwd=R, env=core.base_env(), timeout=60)
+        finally:
+            os.rename(src + '.gone', src)
+            os.rename(bld + '.gone', bld)
+        res.ev('prebuilt:installed-program-ran')
+        if rc != 0:
+            res.violate(('prebuilt', 'installed-program-does-not-run'),
+                        dict(w, rc=rc, output=out[-400:]))
+    # uninstall removes what install created (the vendored library's copy too)
+    rc, out = proj.build(bld, 'make', ['uninstall'] + (['DESTDIR=' + destdir] if destdir else []),
+                         env=env)
+    left = [os.path.relpath(p, R) for p in elfs if os.path.lexists(p)]
+    if rc != 0 or left:
+        res.violate(('prebuilt', 'uninstall-left-files' if rc == 0 else 'uninstall-failed'),
+                    dict(w, left=left, output=out[-400:]))
+    else:
+        res.ev('prebuilt:uninstalled')
+    if not os.path.isfile(os.path.join(src, pre)):
+        res.violate(('prebuilt', 'source-library-removed'), dict(w))
 
 
 def _wit(case, **kw):
